@@ -1,5 +1,6 @@
 import Blots.Model.Units
 import Blots.Lemmas.Units
+import Blots.Lemmas.UnitsRounding
 /-
   C17 — Unit conversion is consistent across the whole unit table.
 
@@ -14,13 +15,27 @@ import Blots.Lemmas.Units
                             conversion of zero
     convQ a b x             one conversion between two `QConv`s (arbitrary coefficients)
 
+  ROUNDING (last section).  The laws for the DOUBLE implementation are proved "up to rounding"
+  with explicit factors, under the standard model of floating-point arithmetic
+  `RoundingModel ops u` (`Lemmas/Rounding.lean`: `fl(a∘b) = (a∘b)(1+δ)`, `|δ| ≤ u`, for finite
+  non-underflowed results) and the accuracy of the table's coefficient doubles
+  (`CoefAccurate u`, proved for `u = 2^-53` by evaluating all rows in the kernel):
+  `convert_error_bound`, `self_identity_up_to_rounding`, `there_and_back_up_to_rounding`,
+  `triangle_up_to_rounding`, `temperature_error_bound`.  The factor is `(1-u)^-k − 1`
+  (`≤ k·u/(1−k·u)`), not `(1+u)^k − 1`: rounded quantities are divided by, see
+  `Lemmas/UnitsRounding.lean`.
+
   NOT proved here (and not provable as stated):
-    * Anything about rounding.  "There and back returns the original value within
-      floating-point rounding", the triangle law and self-conversion FOR DOUBLES are
-      validated numerically by the harness on every ordered pair of every category × the
-      magnitude pool (tolerances justified in harness/src/props/c17.rs), and the double
-      result is compared with the exact-rational result of this model.  The theorems
-      below establish the laws exactly over ℚ, for arbitrary non-zero coefficients.
+    * `RoundingModel NumOps.native 2^-53`, i.e. that the hardware operations are IEEE-754
+      binary64 round-to-nearest: Lean's `Float` is opaque.  It is validated numerically by the
+      harness: `harness/src/props/c17.rs` compares the double conversion with the exact
+      rational conversion of this model on every ordered pair of every category × the
+      magnitude pool (and there-and-back / triangle / self with tolerances justified there).
+      What IS proved is that the hypothesis is satisfiable (`guardedOps_model`,
+      `guardedOpsSub_model`: correct rounding by `F64.ofRatio`).
+    * The rounding theorems need "every intermediate result finite, no multiplication or
+      division underflowed, nothing divided by zero" (`RangeOk`); outside that range (results
+      below 2^-1022, overflow, a reciprocal conversion of 0) no relative bound holds.
     * That the code computes what the model computes: checked bit-for-bit by the
       correspondence run, not proved.
     * `str::to_lowercase` is modelled per character (see Model/Units.lean); the per-character
@@ -324,6 +339,148 @@ theorem prefix_ratio :
   simp [hcv, convOk] at h2
   exact ratioIsPow10_spec nu du nv dv pk.2 hr h1.2 h2.2
 
+/-! ### the laws for the DOUBLE implementation, up to rounding
+
+  `ops` is any arithmetic satisfying the standard model with unit roundoff `u`
+  (`RoundingModel ops u`; for temperature, which subtracts, `RoundingModelSub ops u`).
+  `ResolvesTo a b ra rb`: the identifiers resolve to the table rows `ra`, `rb` of one category.
+  `RangeOk ops ra.conv rb.conv x`: the (two) operations of the conversion at `x` give finite
+  results, did not underflow and did not divide by zero.
+  `G u k = (1-u)^-k − 1`, written out in the statements. -/
+
+/-- whole table: every coefficient double is positive, finite and within relative distance
+    `2^-53` of the exact rational value of its source expression -/
+theorem table_coefficients_accurate : CoefAccurate u64 := table_coef_accurate
+
+/-- whole table: within a category all rows are temperature rows or none is -/
+theorem kind_determined_by_category : ∀ r ∈ units, ∀ s ∈ units, r.cat = s.cat →
+    isScaling r.conv = isScaling s.conv := kind_of_category
+
+/-- CONVERT vs EXACT, linear and reciprocal units (all four combinations: `(x·ca)/cb`,
+    `cb/(x·ca)`, `(ca/x)/cb`, `cb/(ca/x)`): the double result is the exact-rational result
+    times a factor made of `k = 4` roundings — two operations, two coefficients -/
+theorem convert_error_bound (ops : NumOps) (u : ℚ) (M : RoundingModel ops u) (hC : CoefAccurate u)
+    (x : F64) (hx : x.isFinite = true) (a b : List Nat) (ra rb : UnitRow)
+    (hr : ResolvesTo a b ra rb) (hk : isScaling ra.conv = true)
+    (hR : RangeOk ops ra.conv rb.conv x) :
+    ∃ y q, convertF ops x a b = .ok y ∧ convertQ x.toRat a b = .ok (some q) ∧
+      y.isFinite = true ∧ |y.toRat - q| ≤ (((1 - u) ^ 4)⁻¹ - 1) * |q| := by
+  obtain ⟨hra, hrb, hF, hQ⟩ := hr.spec
+  have hcat : ra.cat = rb.cat := by obtain ⟨_, _, _, _, _, _, h⟩ := hr; exact h
+  have hkb : isScaling rb.conv = true := by rw [← kind_of_category ra hra rb hrb hcat]; exact hk
+  obtain ⟨q, θ, hq, hθ, e, hf⟩ := scaling_factor M ra.conv rb.conv (hC ra hra) (hC rb hrb) hk hkb x hx hR
+  exact ⟨_, q, hF ops x, by rw [hQ, hq], hf, hθ.error M.u_nonneg M.u_lt_one e⟩
+
+/-- the factors of all the bounds of this section in the textbook form:
+    `(1-u)^-k − 1 ≤ γₖ = k·u/(1 − k·u)` when `k·u < 1` -/
+theorem rounding_factor_le_gamma (u : ℚ) (hu : 0 ≤ u) (hu1 : u < 1) (k : ℕ) (hk : (k : ℚ) * u < 1) :
+    ((1 - u) ^ k)⁻¹ - 1 ≤ (k : ℚ) * u / (1 - (k : ℚ) * u) :=
+  G_le_gamma hu hu1 k hk
+
+/-- … and against the `(1+u)^k − 1` of C15: twice the count suffices (`u ≤ 1/2`); the same
+    count does not (`1/(1-u) − 1 > u`) -/
+theorem rounding_factor_le_pow (u : ℚ) (hu : 0 ≤ u) (hu2 : u ≤ 1 / 2) (k : ℕ) :
+    ((1 - u) ^ k)⁻¹ - 1 ≤ (1 + u) ^ (2 * k) - 1 :=
+  G_le_E_double hu hu2 k
+
+theorem rounding_factor_not_pow (u : ℚ) (hu : 0 < u) (hu1 : u < 1) :
+    (1 + u) ^ 1 - 1 < ((1 - u) ^ 1)⁻¹ - 1 := by
+  have hp : 0 < 1 - u := by linarith
+  rw [pow_one, pow_one, ← one_div, sub_lt_sub_iff_right, lt_div_iff₀ hp]
+  nlinarith [mul_pos hu hu]
+
+/-- … so for binary64 (`u = 2^-53`) a linear / reciprocal conversion is within
+    `4/(2^53 − 4) < 4.5e-16` (relative) of the exact one -/
+theorem convert_error_bound_binary64 (ops : NumOps) (M : RoundingModel ops u64)
+    (x : F64) (hx : x.isFinite = true) (a b : List Nat) (ra rb : UnitRow)
+    (hr : ResolvesTo a b ra rb) (hk : isScaling ra.conv = true)
+    (hR : RangeOk ops ra.conv rb.conv x) :
+    ∃ y q, convertF ops x a b = .ok y ∧ convertQ x.toRat a b = .ok (some q) ∧
+      |y.toRat - q| ≤ 4 / (2 ^ 53 - 4) * |q| := by
+  obtain ⟨y, q, h1, h2, _, h4⟩ :=
+    convert_error_bound ops u64 M table_coef_accurate x hx a b ra rb hr hk hR
+  refine ⟨y, q, h1, h2, h4.trans (mul_le_mul_of_nonneg_right ?_ (abs_nonneg _))⟩
+  have := G_le_gamma u64_nonneg M.u_lt_one 4 (by unfold u64; norm_num)
+  refine this.trans (le_of_eq ?_)
+  unfold u64; norm_num
+
+/-- SELF: converting a unit to itself returns `x` up to the TWO operation roundings (the
+    coefficient is the same double in both steps and cancels) -/
+theorem self_identity_up_to_rounding (ops : NumOps) (u : ℚ) (M : RoundingModel ops u)
+    (hC : CoefAccurate u) (x : F64) (hx : x.isFinite = true) (a : List Nat) (ra : UnitRow)
+    (hr : ResolvesTo a a ra ra) (hk : isScaling ra.conv = true)
+    (hR : RangeOk ops ra.conv ra.conv x) :
+    ∃ y, convertF ops x a a = .ok y ∧
+      |y.toRat - x.toRat| ≤ (((1 - u) ^ 2)⁻¹ - 1) * |x.toRat| := by
+  obtain ⟨hra, _, hF, _⟩ := hr.spec
+  exact ⟨_, hF ops x, scaling_self M ra.conv (hC ra hra) hk x hx hR⟩
+
+/-- THERE AND BACK: `x →(a→b)→ y →(b→a)→ z` returns `x` up to eight roundings -/
+theorem there_and_back_up_to_rounding (ops : NumOps) (u : ℚ) (M : RoundingModel ops u)
+    (hC : CoefAccurate u) (x : F64) (hx : x.isFinite = true) (a b : List Nat) (ra rb : UnitRow)
+    (hr : ResolvesTo a b ra rb) (hk : isScaling ra.conv = true)
+    (hR₁ : RangeOk ops ra.conv rb.conv x) (y : F64) (hy : convertF ops x a b = .ok y)
+    (hR₂ : RangeOk ops rb.conv ra.conv y) :
+    ∃ z, convertF ops y b a = .ok z ∧
+      |z.toRat - x.toRat| ≤ (((1 - u) ^ 8)⁻¹ - 1) * |x.toRat| := by
+  obtain ⟨hra, hrb, hF, _⟩ := hr.spec
+  obtain ⟨_, _, hF', _⟩ := hr.symm.spec
+  have hcat : ra.cat = rb.cat := by obtain ⟨_, _, _, _, _, _, h⟩ := hr; exact h
+  have hkb : isScaling rb.conv = true := by rw [← kind_of_category ra hra rb hrb hcat]; exact hk
+  have hy' : y = convRowF ops ra.conv rb.conv x := by
+    have := (hF ops x).symm.trans hy; cases this; rfl
+  subst hy'
+  exact ⟨_, hF' ops _, scaling_there_back M ra.conv rb.conv (hC ra hra) (hC rb hrb) hk hkb x hx hR₁ hR₂⟩
+
+/-- TRIANGLE: `x →(a→b)→ y →(b→c)→ z` against the exact `a→c` conversion `Q` of `x` (eight
+    roundings) and against the direct double conversion `w` of `x` (eight plus four) -/
+theorem triangle_up_to_rounding (ops : NumOps) (u : ℚ) (M : RoundingModel ops u)
+    (hC : CoefAccurate u) (x : F64) (hx : x.isFinite = true) (a b c : List Nat)
+    (ra rb rc : UnitRow) (hab : ResolvesTo a b ra rb) (hbc : ResolvesTo b c rb rc)
+    (hk : isScaling ra.conv = true)
+    (hR₁ : RangeOk ops ra.conv rb.conv x) (y : F64) (hy : convertF ops x a b = .ok y)
+    (hR₂ : RangeOk ops rb.conv rc.conv y) (hR₃ : RangeOk ops ra.conv rc.conv x) :
+    ∃ z w Q, convertF ops y b c = .ok z ∧ convertF ops x a c = .ok w ∧
+      convertQ x.toRat a c = .ok (some Q) ∧
+      |z.toRat - Q| ≤ (((1 - u) ^ 8)⁻¹ - 1) * |Q| ∧
+      |z.toRat - w.toRat| ≤ ((((1 - u) ^ 8)⁻¹ - 1) + (((1 - u) ^ 4)⁻¹ - 1)) * |Q| := by
+  obtain ⟨hra, hrb, hFab, _⟩ := hab.spec
+  obtain ⟨_, hrc, hFbc, _⟩ := hbc.spec
+  obtain ⟨_, hac⟩ := hab.trans hbc
+  obtain ⟨_, _, hFac, hQac⟩ := hac.spec
+  have hcat : ra.cat = rb.cat := by obtain ⟨_, _, _, _, _, _, h⟩ := hab; exact h
+  have hcat' : rb.cat = rc.cat := by obtain ⟨_, _, _, _, _, _, h⟩ := hbc; exact h
+  have hkb : isScaling rb.conv = true := by rw [← kind_of_category ra hra rb hrb hcat]; exact hk
+  have hkc : isScaling rc.conv = true := by rw [← kind_of_category rb hrb rc hrc hcat']; exact hkb
+  have hy' : y = convRowF ops ra.conv rb.conv x := by
+    have := (hFab ops x).symm.trans hy; cases this; rfl
+  subst hy'
+  obtain ⟨Q, hQ, E1, E2⟩ := scaling_triangle M ra.conv rb.conv rc.conv (hC ra hra) (hC rb hrb)
+    (hC rc hrc) hk hkb hkc x hx hR₁ hR₂ hR₃
+  exact ⟨_, _, Q, hFbc ops _, hFac ops x, by rw [hQac, hQ], E1, E2⟩
+
+/-- TEMPERATURE (additions and subtractions: the error is ABSOLUTE).  With `k` the number of
+    roundings charged to the two functions (`tempCnt`: celsius 2, fahrenheit 4 to / 5 from
+    kelvin; the literal `273.15` is itself rounded) and `m` the conversion formula with every
+    term in absolute value (`tempMag`, e.g. celsius→fahrenheit: `(|x| + 2·273.15)·9/5 + 32`):
+    `|double − exact| ≤ ((1-u)^-k − 1) · m` -/
+theorem temperature_error_bound (ops : NumOps) (u : ℚ) (S : RoundingModelSub ops u)
+    (hu64 : u64 ≤ u) (x : F64) (hx : x.isFinite = true) (a b : List Nat) (ra rb : UnitRow)
+    (hr : ResolvesTo a b ra rb) (ta fa tb fb : TempFn)
+    (ha : ra.conv = .temperature ta fa) (hb : rb.conv = .temperature tb fb)
+    (hR : RangeOk ops ra.conv rb.conv x) :
+    ∃ y, convertF ops x a b = .ok y ∧
+      convertQ x.toRat a b = .ok (some (fb.evalQ (ta.evalQ x.toRat))) ∧ y.isFinite = true ∧
+      |y.toRat - fb.evalQ (ta.evalQ x.toRat)| ≤
+        (((1 - u) ^ (tempCnt ta + tempCnt fb))⁻¹ - 1) * tempMag fb (tempMag ta |x.toRat|) := by
+  obtain ⟨_, _, hF, hQ⟩ := hr.spec
+  rw [ha, hb] at hR
+  obtain ⟨h1, h2, h3⟩ := Units.temperature_error_bound S hu64 ta fa tb fb x hx hR
+  refine ⟨_, hF ops x, ?_, ?_, ?_⟩
+  · rw [hQ, ha, hb, h1]
+  · rw [ha, hb]; exact h2
+  · rw [ha, hb]; exact h3
+
 /-! ### non-vacuity: the hypotheses above are met by concrete table entries -/
 
 -- the table is the expected size and the resolution routes are all taken
@@ -356,5 +513,64 @@ example : codesOf "kilometers" = codesOf "kilo" ++ codesOf "meters" ∧
     (units.getD 4 default).cat = (units.getD 3 default).cat := by decide +kernel
 example : coefQ 1000 1 = coefQ 1 1 * pow10 3 := by decide +kernel
 example : QConv.WellFormed (.linear (1000 : Rat)) := by simp [QConv.WellFormed]
+
+-- ROUNDING.  The standard model is satisfiable with the unit roundoff of binary64 (correct
+-- rounding by `F64.ofRatio`, guarded); that the HARDWARE operations `NumOps.native` satisfy
+-- `RoundingModel NumOps.native 2^-53` is NOT proved (Lean's `Float` is opaque): the harness
+-- validates it numerically (c17.rs compares the double conversions with the exact model on
+-- every ordered pair × the magnitude pool).
+example : RoundingModel guardedOps (1 / 2 ^ 53) := guardedOps_model
+example : RoundingModelSub guardedOpsSub (1 / 2 ^ 53) := guardedOpsSub_model
+example : CoefAccurate (1 / 2 ^ 53) := table_coef_accurate
+-- km → m → km at x = 0.1: identifiers resolve to rows #4, #3 of one category, both linear,
+-- and every side condition of there-and-back holds (decided in the kernel) …
+example : ResolvesTo (codesOf "km") (codesOf "m") (units.getD 4 default) (units.getD 3 default) :=
+  ⟨4, 3, by decide +kernel, by decide +kernel, rfl, rfl, by decide +kernel⟩
+example : isScaling (units.getD 4 default).conv = true ∧ dbl01.isFinite = true ∧
+    RangeOk guardedOps (units.getD 4 default).conv (units.getD 3 default).conv dbl01 ∧
+    RangeOk guardedOps (units.getD 3 default).conv (units.getD 4 default).conv
+      (convRowF guardedOps (units.getD 4 default).conv (units.getD 3 default).conv dbl01) := by
+  decide +kernel
+-- … so the theorem applies: 0.1 km → m → km is within (1-u)^-8 − 1 of 0.1
+example : ∃ y z, convertF guardedOps dbl01 (codesOf "km") (codesOf "m") = .ok y ∧
+    convertF guardedOps y (codesOf "m") (codesOf "km") = .ok z ∧
+    |z.toRat - dbl01.toRat| ≤ (((1 - u64) ^ 8)⁻¹ - 1) * |dbl01.toRat| := by
+  have hr : ResolvesTo (codesOf "km") (codesOf "m") (units.getD 4 default) (units.getD 3 default) :=
+    ⟨4, 3, by decide +kernel, by decide +kernel, rfl, rfl, by decide +kernel⟩
+  have hy := hr.spec.2.2.1 guardedOps dbl01
+  obtain ⟨z, hz, hb⟩ := there_and_back_up_to_rounding guardedOps u64 guardedOps_model
+    table_coef_accurate dbl01 (by decide +kernel) _ _ _ _ hr (by decide +kernel)
+    (by decide +kernel) _ hy (by decide +kernel)
+  exact ⟨_, z, hy, hz, hb⟩
+-- reciprocal: mpg (#164, reciprocal) ↔ l/100km (#163, linear) at x = 0.3, both directions
+example : ResolvesTo (codesOf "mpg") (codesOf "l/100km") (units.getD 164 default) (units.getD 163 default) :=
+  ⟨164, 163, by decide +kernel, by decide +kernel, rfl, rfl, by decide +kernel⟩
+example : isScaling (units.getD 164 default).conv = true ∧
+    RangeOk guardedOps (units.getD 164 default).conv (units.getD 163 default).conv dbl03 ∧
+    RangeOk guardedOps (units.getD 163 default).conv (units.getD 164 default).conv
+      (convRowF guardedOps (units.getD 164 default).conv (units.getD 163 default).conv dbl03) ∧
+    RangeOk guardedOps (units.getD 164 default).conv (units.getD 164 default).conv dbl03 := by
+  decide +kernel
+example : ∃ y q, convertF guardedOps dbl03 (codesOf "mpg") (codesOf "l/100km") = .ok y ∧
+    convertQ dbl03.toRat (codesOf "mpg") (codesOf "l/100km") = .ok (some q) ∧
+    |y.toRat - q| ≤ 4 / (2 ^ 53 - 4) * |q| :=
+  convert_error_bound_binary64 guardedOps guardedOps_model dbl03 (by decide +kernel) _ _ _ _
+    ⟨164, 163, by decide +kernel, by decide +kernel, rfl, rfl, by decide +kernel⟩
+    (by decide +kernel) (by decide +kernel)
+-- the side conditions are not decoration: a reciprocal conversion of 0 is outside them
+example : ¬ RangeOk guardedOps (units.getD 164 default).conv (units.getD 163 default).conv F64.zero := by
+  decide +kernel
+-- temperature: celsius (#1) → fahrenheit (#2) at x = 0.5; 2 + 5 roundings at magnitude
+-- (0.5 + 2·273.15)·9/5 + 32
+example : ResolvesTo (codesOf "celsius") (codesOf "fahrenheit") (units.getD 1 default) (units.getD 2 default) ∧
+    RangeOk guardedOpsSub (units.getD 1 default).conv (units.getD 2 default).conv dblHalf :=
+  ⟨⟨1, 2, by decide +kernel, by decide +kernel, rfl, rfl, by decide +kernel⟩, by decide +kernel⟩
+example : tempCnt .celsius_to_kelvin + tempCnt .kelvin_to_fahrenheit = 7 ∧
+    tempMag .kelvin_to_fahrenheit (tempMag .celsius_to_kelvin (1 / 2)) = (1 / 2 + 2 * (5463 / 20)) * 9 / 5 + 32 := by
+  constructor
+  · rfl
+  · simp only [tempMag]; ring
+-- `rounding_factor_le_gamma` for k = 8 and binary64
+example : (0 : ℚ) ≤ u64 ∧ u64 < 1 ∧ ((8 : ℕ) : ℚ) * u64 < 1 := by unfold u64; norm_num
 
 end Blots.C17
